@@ -3,13 +3,13 @@
 
    The models are parameterised by the big multiplication / division they call:
      bdivrem = Div.udivrem Extracted.div   (the real division model, merged from the div area)
-     bmul    = PgrLoop.spec_bmul           (spec-level stand-in = right-hand side of
-                                            Mul.umul_spec, until the mul area is merged)
+     bmul    = Mul.umul Extracted.mul      (the real multiplication model, merged from the mul area;
+                                            exact by MulProofs5.umul_spec: PgrInst.pgr_bmul_exact)
    see docs/notes/pgr.md. *)
 open Io
 let v = Base.coq_val
 let enc = Base.enc
-let bmul = PgrLoop.spec_bmul
+let bmul = Mul.umul Extracted.mul
 let bdivrem = Div.udivrem Extracted.div
 let ap = Extracted.addsub
 let pp = Extracted.pgr_pow
